@@ -23,11 +23,11 @@ var caseBudget = 30 * time.Second
 type Ev map[string]any
 
 type Writer struct {
-	w    *bufio.Writer
-	cas  int
-	i    int
-	nEv  int
-	fam  string
+	w   *bufio.Writer
+	cas int
+	i   int
+	nEv int
+	fam string
 }
 
 func (w *Writer) Begin(cas int, fam string) { w.cas, w.i, w.fam = cas, 0, fam }
@@ -237,7 +237,9 @@ func guard(f func()) (res string, msg string) {
 	return "ok", ""
 }
 
-func be32(v uint32) []int { return []int{int(v >> 24), int(v >> 16 & 255), int(v >> 8 & 255), int(v & 255)} }
+func be32(v uint32) []int {
+	return []int{int(v >> 24), int(v >> 16 & 255), int(v >> 8 & 255), int(v & 255)}
+}
 func be64(v uint64) []int {
 	out := make([]int, 8)
 	for i := 0; i < 8; i++ {
